@@ -450,6 +450,19 @@ func CheckC07(sp Spec, o Obs) []Finding {
 				w = append(w, e)
 			}
 		}
+		// The multiplexer without a handler for the payload: its fallback answers
+		// the request whatever follows (an IQ without payload element is still
+		// answered, even though the router then reports it as an error). Only an
+		// element that cannot be read or addresses that do not parse excuse it.
+		if sp.Mode == 1 && len(w) == 0 && el.DirtyAt < 0 && !el.Truncated && el.Start.Space == sp.NS &&
+			!hasRegistered(sp, el) && addressesParse(el.Start) {
+			key := "mux/fallback-unanswered"
+			if !hasChildElement(el) {
+				key = "mux/empty-iq-unanswered"
+			}
+			add(key, "request %q with no handler registered for its payload: the multiplexer's fallback did not answer it (mux returned %v, Serve returned %v)", id, v.Ret, o.Ret)
+			continue
+		}
 		if !completed {
 			// the stream may be terminated with an error instead
 			if len(w) == 0 && o.Ret.Code == 0 {
@@ -507,6 +520,18 @@ func CheckC07(sp Spec, o Obs) []Finding {
 		}
 	}
 	return fs
+}
+
+// addressesParse: the to and from attributes stanza.NewIQ reads are valid addresses
+func addressesParse(t STok) bool {
+	for _, a := range t.Attrs {
+		if (a.Local == "to" || a.Local == "from") && (a.Space == "" || a.Space == t.Space) && a.Value != "" {
+			if _, err := jid.Parse(a.Value); err != nil {
+				return false
+			}
+		}
+	}
+	return true
 }
 
 func attrOr(t STok, local string) string { v, _ := t.AttrVal(local); return v }
